@@ -1353,6 +1353,13 @@ class Interp:
         if last in ('into_iter', 'iter', 'as_slice', 'take_while', 'skip_while', 'skip', 'filter', 'by_ref', 'peekable', 'take', 'deref', 'deref_mut') \
                 and isinstance(a0d, Agg) and a0d.adt == 'children-of':
             return a0d
+        if isinstance(a0d, Agg) and a0d.adt == 'children-of':
+            if last == 'get' and len(args) > 1 and not isinstance(deref(args[1]), (Const, IntGe)):
+                # a sub-range of the children: abstracted by the same sequence (the empty / None case iterates nothing and emits nothing)
+                return Agg('core::option::Option', 'Some', [a0d])
+            if last in ('last', 'first') and getattr(self, 'children_edge_hint', None) and self.children_edge_hint.get(last) is not None:
+                # sequence evaluation with a known final (first) element of the iterated sub-sequence
+                return Agg('core::option::Option', 'Some', [self.children_edge_hint[last]])
         # anything else is unknown
         self.havoc([a for a in args if isinstance(a, Ref) and self._mutably_passed(t, args.index(a))])
         return Top(path)
